@@ -25,6 +25,10 @@ type Event struct {
 	// Refused marks, inside a recorded history, a rename the server answered
 	// with an error without changing anything (the reference tree skips it).
 	Refused bool
+	// Sync marks, inside a recorded history, an event after which the observed tree
+	// differed from the reference tree in a check that does not judge the tree
+	// (C20, C21; C18 reports it): the reference takes over the observed kinds.
+	Sync bool
 }
 
 func (e Event) String() string {
@@ -37,6 +41,9 @@ func (e Event) String() string {
 	case "mv", "ln":
 		if e.Refused {
 			return e.Op + " " + e.P + " " + e.Q + " !refused"
+		}
+		if e.Sync {
+			return e.Op + " " + e.P + " " + e.Q + " !sync"
 		}
 		return e.Op + " " + e.P + " " + e.Q
 	}
@@ -68,6 +75,8 @@ func ParseEvent(s string) (Event, error) {
 	case "mv", "ln":
 		if len(f) == 4 && f[3] == "!refused" {
 			e.Refused = true
+		} else if len(f) == 4 && f[3] == "!sync" {
+			e.Sync = true
 		} else if len(f) != 3 {
 			return e, fmt.Errorf("bad event %q", s)
 		}
@@ -138,12 +147,12 @@ func totalSize(cs []*filer_pb.FileChunk) (t int64) {
 
 // Outcome is what the client saw.
 type Outcome struct {
-	Err     string   // "" = success; otherwise the error (gRPC error or resp.Error)
-	Wrote   []string // for write events: the chunk list the client sent
+	Err   string   // "" = success; otherwise the error (gRPC error or resp.Error)
+	Wrote []string // for write events: the chunk list the client sent
 	// WroteMode: for updates, the file mode the client sent (valid when HasMode).
 	WroteMode uint32
 	HasMode   bool
-	Skipped bool     // the client could not form the request (e.g. update of a missing entry)
+	Skipped   bool // the client could not form the request (e.g. update of a missing entry)
 }
 
 // Apply executes one event against the real server.  step is the index of the
